@@ -316,19 +316,17 @@ func visitInstr(fr *frame, instr ssa.Instruction) continuation {
 	case *ssa.MakeSlice:
 		ln := fr.get(instr.Len)
 		cp := fr.get(instr.Cap)
-		n := ps.makeLen(ln, "make: len")
+		tElt := instr.Type().Underlying().(*types.Slice).Elem()
+		esz := fr.i.sizes.Sizeof(tElt)
+		n := ps.makeLen(ln, "make: len", esz)
 		c := n
 		if cp != nil {
-			c = ps.makeLen(cp, "make: cap")
+			c = ps.makeLen(cp, "make: cap", esz)
 		}
 		if n > c {
 			rtPanic("makeslice: cap out of range")
 		}
-		if c > fr.i.ps.cfg.AllocLimitElems() {
-			ps.allocViolation(fr, c)
-		}
 		slice := make([]value, c)
-		tElt := instr.Type().Underlying().(*types.Slice).Elem()
 		if isByteLike(tElt) {
 			z := zero(tElt)
 			for i := range slice {
@@ -434,16 +432,33 @@ func isByteLike(t types.Type) bool {
 	return ok
 }
 
-// makeLen concretises the length argument of make.
-func (ps *pathState) makeLen(v value, what string) int {
+// makeLen concretises the length argument of make for elements of elemSize
+// bytes.  Sizes the Go runtime rejects (len > maxAlloc/elemSize, maxAlloc =
+// 2^48 on linux/amd64) raise the same panic the runtime raises.  Sizes above
+// the engine's allocation bound are a violation "alloc-bound" when the
+// harness declared a limit (verifsym.AllocLimit), otherwise the path is
+// abandoned and counted as outside the claim.
+func (ps *pathState) makeLen(v value, what string, elemSize int64) int {
+	if elemSize <= 0 {
+		elemSize = 1
+	}
+	maxLen := uint64(1<<48) / uint64(elemSize)
+	lim := uint64(ps.cfg.AllocLimitElems())
+	if ps.allocLimit > 0 {
+		lim = uint64(ps.allocLimit) / uint64(elemSize)
+	}
 	if s, ok := v.(*sym); ok {
 		w := kindWidth(s.k)
 		if kindSigned(s.k) && ps.decide(ps.ts.BVCmp(OpBVSLt, s.t, ps.ts.BV(0, w))) {
 			rtPanic("makeslice: len out of range")
 		}
-		lim := uint64(ps.cfg.AllocLimitElems())
+		if w == 64 && ps.decide(ps.ts.BVCmp(OpBVULt, ps.ts.BV(maxLen, w), s.t)) {
+			rtPanic("makeslice: len out of range")
+		}
 		if ps.decide(ps.ts.BVCmp(OpBVULt, ps.ts.BV(lim, w), s.t)) {
-			ps.allocViolation(nil, int(lim)+1)
+			// prefer a small witness so that the native replay can allocate it
+			ps.tryAssume(ps.ts.BVCmp(OpBVULe, s.t, ps.ts.BV(lim*2+16, w)))
+			ps.allocTooLarge(what)
 		}
 		return int(ps.concInt(v, what))
 	}
@@ -451,18 +466,23 @@ func (ps *pathState) makeLen(v value, what string) int {
 	if k, _ := concreteKind(v); !kindSigned(k) && asUint64Any(v) > 1<<62 {
 		n = -1
 	}
-	if n < 0 {
+	if n < 0 || uint64(n) > maxLen {
 		rtPanic("makeslice: len out of range")
+	}
+	if uint64(n) > lim {
+		ps.allocTooLarge(what)
 	}
 	return int(n)
 }
 
-func (ps *pathState) allocViolation(fr *frame, n int) {
-	w := ""
-	if fr != nil {
-		w = fr.where()
+func (ps *pathState) allocTooLarge(what string) {
+	if ps.allocLimit > 0 {
+		ps.obligations++
+		ps.recordViolation("alloc-bound", what+": allocation exceeds the declared limit", ps.model)
+		panic(pathAbort{kind: "violation-stop"})
 	}
-	panic(targetPanic{v: rtErr(fmt.Sprintf("verif: allocation of %d elements exceeds the allocation bound at %s", n, w))})
+	ps.notes = append(ps.notes, "path abandoned: allocation above the engine bound (outside the claim)")
+	panic(pathAbort{kind: "done"})
 }
 
 func doSelect(fr *frame, instr *ssa.Select) value {
